@@ -112,6 +112,11 @@ def layout_core(m, w, o, rich=True):
         h = first_handle(m, [Q[0]] + F[:1])
         if h and F:
             acts.append(["ce_combine", h, [F[0], Q[0]]])
+    if F and rich and w.fock_dim(F[0]) > 0:
+        acts.append(["op", "state", [F[0]], "FCustom", {"tag": 1}])
+    for e in m.envs[:1]:
+        if rich and m.ref.alive(e + ".f") and m.ref.alive(e + ".p") and w.fock_dim(e + ".f") > 0:
+            acts.append(["kraus", "env:" + e, [e + ".f", e + ".p"], "uni", None])
     if F and P and rich:
         # fock of one envelope with polarization of the other: cross-envelope block
         cross = [p for p in P if m.ref.env_of[p] != m.ref.env_of[F[0]]]
@@ -378,6 +383,23 @@ def with_prefix(w, prefix):
     return w
 
 
+def rich_seeds(depth):
+    """Seed worlds whose prefix already builds the layouts single actions cannot reach quickly."""
+    ps3m = W3({"A.f": 1, "A.p": "R", "B.p": "V"})
+    ps3m["prefix"] = [["ce_combine", "h1", ["A.f", "Q"]], ["ce_combine", "h1", ["B.p", "A.f"]],
+                      ["op", "state", ["B.p"], "H", None], ["expand", "state", ["A.f"]]]
+    envent = W3({"A.f": 1, "A.p": "R", "A.f.dim": 3, "B.f": 1})
+    envent["prefix"] = [["kraus", "env:A", ["A.f", "A.p"], "uni", None]]
+    enventm = W3({"A.f": 1, "A.p": "R", "A.f.dim": 3}, contraction=False)
+    enventm["prefix"] = [["kraus", "env:A", ["A.p", "A.f"], "uni", None], ["kraus", "state", ["A.p"], "dephase", None]]
+    fcx = W3({"A.f": 1, "A.f.dim": 3, "B.p": "L"})
+    fcx["prefix"] = [["op", "state", ["A.f"], "FCustom", {"tag": 1}], ["op", "state", ["Q"], "QExpr", None]]
+    ent = with_prefix(W3({"A.f": 1, "B.p": "V"}), ENT_PREFIX)
+    out = [("W3/ent", ent), ("W3/ps3M", ps3m), ("W3/env-entangled", envent), ("W3/env-entangled-mixed", enventm),
+           ("W3/fock-complex", fcx)]
+    return [(n, w, depth) for n, w in out]
+
+
 SEEDS_W3 = [
     ("W3/default", W3()),
     ("W3/1R-noctr", W3({"A.f": 1, "A.p": "R", "B.p": "V"}, contraction=False)),
@@ -394,22 +416,26 @@ SEEDS_W4 = [
 ]
 
 
+def quick_w3(depth=1):
+    return [(n, w_, depth) for n, w_ in SEEDS_W3[:2]]
+
+
 def get(name, tier, seed):
     q = tier == "quick"
     core = lambda m, w, o: rotate(layout_core(m, w, o), 0)  # noqa: E731
     base = {"D": 6, "faults": False, "wall_cap": 1500 if q else 7200, "state_cap": 100000}
     if name == "C01":
-        return {**base, "prop": "C01", "worlds": SEEDS_W3[:2] + SEEDS_W1[:2] if q else SEEDS_W3 + SEEDS_W1,
+        return {**base, "prop": "C01", "worlds": (SEEDS_W3[:2] + SEEDS_W1[:2] if q else SEEDS_W3 + SEEDS_W1) + rich_seeds(1 if q else 2),
                 "core": core, "probes": probes_single_ops(seed, full=not q), "depth": 2 if q else 3}
     if name == "C02":
-        return {**base, "prop": "C02", "worlds": SEEDS_W3[:2] + SEEDS_W1[:2] if q else SEEDS_W3 + SEEDS_W1,
+        return {**base, "prop": "C02", "worlds": (SEEDS_W3[:2] + SEEDS_W1[:2] if q else SEEDS_W3 + SEEDS_W1) + rich_seeds(1 if q else 2),
                 "core": core, "probes": union(probes_structural(seed), probes_identity_requests(seed)),
                 "depth": 2 if q else 3}
     if name == "C03":
-        return {**base, "prop": "C03", "worlds": SEEDS_W3[:2] + SEEDS_W4[1:] if q else SEEDS_W3 + SEEDS_W4,
+        return {**base, "prop": "C03", "worlds": (SEEDS_W3[:2] + SEEDS_W4[1:] if q else SEEDS_W3 + SEEDS_W4) + rich_seeds(1 if q else 2),
                 "core": core, "probes": probes_composite_ops(seed), "depth": 2 if q else 3}
     if name == "C04":
-        return {**base, "prop": "C04", "worlds": SEEDS_W3[:2] + SEEDS_W1[:2] if q else SEEDS_W3 + SEEDS_W1,
+        return {**base, "prop": "C04", "worlds": (quick_w3(1) + SEEDS_W1[:2] if q else SEEDS_W3 + SEEDS_W1) + rich_seeds(1 if q else 2),
                 "core": core, "probes": probes_measure(seed), "depth": 2 if q else 3}
     if name == "C05":
         def core5(m, w, o):
@@ -420,29 +446,28 @@ def get(name, tier, seed):
                 acts.append(["measure", "state", [L[0]], True, False])
                 acts.append(["measure", "state", [L[-1]], False, True])
             return acts
-        return {**base, "prop": "C05", "worlds": SEEDS_W3[:2] + SEEDS_W1[:2] if q else SEEDS_W3 + SEEDS_W1,
-                "core": core5, "probes": probes_measure(seed), "depth": 2 if q else 3}
+        return {**base, "prop": "C05", "worlds": (quick_w3(1) + SEEDS_W1[:2] if q else SEEDS_W3 + SEEDS_W1) + rich_seeds(1 if q else 2),
+                "core": core5, "probes": probes_measure(seed), "depth": 2 if q else 3, "continuation": True}
     if name == "C06":
-        return {**base, "prop": "C06", "worlds": SEEDS_W3[:2] + SEEDS_W1[:2] if q else SEEDS_W3 + SEEDS_W1,
+        return {**base, "prop": "C06", "worlds": (SEEDS_W3[:2] + SEEDS_W1[:2] if q else SEEDS_W3 + SEEDS_W1) + rich_seeds(1 if q else 2),
                 "core": core, "probes": probes_kraus(seed), "depth": 2 if q else 3}
     if name == "C07":
         wide = union(probes_single_ops(seed, full=False), probes_kraus(seed), probes_structural(seed, 2),
                      probes_measure(seed, 1), probes_resize(seed))
-        return {**base, "prop": "C07", "worlds": SEEDS_W3[:2] if q else SEEDS_W3 + SEEDS_W1,
+        return {**base, "prop": "C07", "worlds": (SEEDS_W3[:2] if q else SEEDS_W3 + SEEDS_W1) + rich_seeds(1 if q else 2),
                 "core": core, "probes": wide, "depth": 2 if q else 3}
     if name == "C09":
-        w9 = [("W3/ent", with_prefix(W3({"A.f": 1, "B.p": "V"}), ENT_PREFIX), 1), SEEDS_W1[1]] if q else \
-            SEEDS_W3 + SEEDS_W1 + [("W3/ent", with_prefix(W3({"A.f": 1, "B.p": "V"}), ENT_PREFIX))]
+        w9 = (rich_seeds(1)[:1] + rich_seeds(0)[1:] + [SEEDS_W1[1]]) if q else SEEDS_W3 + SEEDS_W1 + rich_seeds(2)
         return {**base, "prop": "C09", "worlds": w9,
                 "core": core, "probes": probes_povm(seed, ("diag", "dil3"), ("dil3",)) if q else probes_povm(seed),
                 "depth": 2 if q else 3}
     if name == "C10":
-        return {**base, "prop": "C10", "worlds": SEEDS_W3[:2] + SEEDS_W1[1:] if q else SEEDS_W3 + SEEDS_W1,
+        return {**base, "prop": "C10", "worlds": (SEEDS_W3[:2] + SEEDS_W1[1:] if q else SEEDS_W3 + SEEDS_W1) + rich_seeds(1 if q else 2),
                 "core": core, "probes": probes_resize(seed), "depth": 2 if q else 3}
     if name == "C20":
         wide = union(probes_single_ops(seed, full=False), probes_composite_ops(seed), probes_kraus(seed),
                      probes_structural(seed, 2), probes_measure(seed, 2), probes_resize(seed))
-        return {**base, "prop": "C20", "worlds": SEEDS_W3[:2] if q else SEEDS_W3,
+        return {**base, "prop": "C20", "worlds": (SEEDS_W3[:2] if q else SEEDS_W3) + rich_seeds(1 if q else 2),
                 "core": core, "probes": wide, "depth": 1 if q else 2}
     if name == "C13":
         def core13(m, w, o):
@@ -479,7 +504,20 @@ def get(name, tier, seed):
               "contraction": True, "D": 3}
         WX = {"envs": ["A", "B", "C", "D"], "custom": {}, "handles": {"h1": ["A", "B"], "h2": ["C", "D"]},
               "init": {"A.f": 1, "C.p": "V"}, "contraction": True, "D": 3}
-        return {**base, "prop": "C13", "worlds": [("WM", WM), ("WX", WX)], "core": core13, "probes": no_probes,
+        wide = union(probes_measure(seed, 2), probes_structural(seed, 2), probes_kraus(seed)) if q else \
+            union(probes_measure(seed, 2), probes_structural(seed, 2), probes_kraus(seed), probes_composite_ops(seed),
+                  probes_povm(seed, ("dil3",), ("dil3",)), probes_resize(seed))
+
+        def is_w3(m):
+            return len(m.envs) == 2 and "Q" in m.ref.kinds
+
+        def core13b(m, w, o):
+            return layout_core(m, w, o) if is_w3(m) else core13(m, w, o)
+
+        def probes13(m, w, o):
+            return wide(m, w, o) if is_w3(m) else []
+        return {**base, "prop": "C13", "worlds": [("WM", WM), ("WX", WX)] + [(n, w_, 1 if q else 2) for n, w_ in SEEDS_W3[:(1 if q else 2)]]
+                + rich_seeds(0 if q else 2), "core": core13b, "probes": probes13,
                 "depth": 3 if q else 4, "extra_judges": []}
     if name == "C11":
         etas = [PI / 4, 0.3, -1.1, PI / 2]
@@ -547,10 +585,9 @@ def get(name, tier, seed):
         nearly["prefix"] = [["kraus", "state", ["A.p"], "dephase", {"p": 1e-7 / 2}]]
         nearly2 = W3({"A.f": 1, "A.p": "R"})
         nearly2["prefix"] = [["kraus", "state", ["A.p"], "dephase", {"p": 1e-3 / 2}]]
-        w8 = SEEDS_W3[:2] + SEEDS_W1[1:2] + ([("W3/nearly-pure-1e-7", nearly, 1), ("W3/nearly-pure-1e-3", nearly2, 1)])
+        w8 = SEEDS_W3[:2] + SEEDS_W1[1:2] + [("W3/nearly-pure-1e-7", nearly, 1), ("W3/nearly-pure-1e-3", nearly2, 1)] + rich_seeds(1)[1:]
         if not q:
-            w8 = SEEDS_W3 + SEEDS_W1 + [("W3/nearly-pure-1e-7", nearly, 2), ("W3/nearly-pure-1e-3", nearly2, 2),
-                                         ("W3/ent", with_prefix(W3({"A.f": 1, "B.p": "V"}), ENT_PREFIX), 2)]
+            w8 = SEEDS_W3 + SEEDS_W1 + [("W3/nearly-pure-1e-7", nearly, 2), ("W3/nearly-pure-1e-3", nearly2, 2)] + rich_seeds(2)
         return {**base, "prop": "C08", "worlds": w8, "core": core, "probes": probes8, "depth": 2 if q else 3, "twin": "c08"}
     if name == "C18":
         def calls18(m, w, o):
@@ -623,6 +660,6 @@ def get(name, tier, seed):
             if F:
                 acts.append(["measure", "state", [F[-1]], False, True])
             return acts
-        return {**base, "prop": "C17", "worlds": SEEDS_W3[:2] + SEEDS_W1[1:2] if q else SEEDS_W3 + SEEDS_W1,
+        return {**base, "prop": "C17", "worlds": (SEEDS_W3[:2] + SEEDS_W1[1:2] if q else SEEDS_W3 + SEEDS_W1) + rich_seeds(1 if q else 2),
                 "core": core17, "probes": fault_menu(seed), "depth": 2 if q else 3, "faults": True}
     raise KeyError(name)
